@@ -46,16 +46,33 @@ def build(ctx, name="h_pipe"):
             raise vlib.BuildError("compiling %s failed:\n%s" % (s, (o + e)[-3000:]))
     exe = os.path.join(ctx.bdir, name)
     cmd = ["g++"] + [f for f in fl if f.startswith("-fsanitize") or f == "-g"] + objs + \
-          ["-o", exe, "-Wl,--wrap=channel_write_unmap,--wrap=channel_abort_write", "-lm", "-ldl", "-pthread"]
+          ["-o", exe, "-Wl,--wrap=channel_write_unmap,--wrap=channel_abort_write,--wrap=channel_write_map,--wrap=channel_accept_writes,--wrap=channel_read_map,--wrap=channel_read_unmap", "-lm", "-ldl", "-pthread"]
     rc, o, e = vlib.sh(cmd, timeout=600)
     if rc != 0:
         raise vlib.BuildError("link failed:\n" + (o + e)[-3000:])
     return exe
 
 
+class Lines(list):
+    """the log lines of a run, with .tids[i] = id of the thread that printed line i (-1: the scheduler)"""
+    tids = ()
+
+
 def run_prog(exe, prog, timeout=120):
     rc, o, e = vlib.sh([exe], inp="\n".join(prog) + "\n", timeout=timeout)
-    lines = [l for l in o.split("\n") if l]
+    raw = [l for l in o.split("\n") if l]
+    lines = []
+    tids = []
+    for l in raw:
+        m = re.match(r"@(-?\d+) (.*)$", l)
+        if m:
+            tids.append(int(m.group(1)))
+            lines.append(m.group(2))
+        else:
+            tids.append(-1)
+            lines.append(l)
+    lines = Lines(lines)
+    lines.tids = tids
     return rc, lines, e
 
 
@@ -136,7 +153,7 @@ def scenario(rng, kind):
             avg = 0
             if kind == "abort" and rng.random() < 0.25:
                 avg = rng.choice([2, 3])
-            delay = rng.choice([0, 0, 0, 0.5, 5, 50])
+            delay = rng.choice([0, 0, 0, 0.5, 2, 5])
             unbounded = kind == "abort" and rng.random() < 0.3
             if unbounded:
                 n = -1
@@ -499,3 +516,233 @@ def oracle(prog, lines, meta):
         elif l.startswith("A "):
             prev = None
     return V
+
+
+# ----------------------------------------------------------------------------- log -> model events (fam/pipe/coq/PipeModel.v)
+def shape_code(w, h, t, sz):
+    return ((sz * 4096 + w) * 4096 + h) * 16 + (t & 15)
+
+
+def in_model_scope(prog):
+    """Grammar G1 of the Coq model: averaging off; every stream uses its own device pair (stream i -> cam/sto i);
+    configure / start only between acquisitions (what the scenario generator produces)."""
+    for l in prog:
+        w = l.split()
+        if w and w[0] == "cfg":
+            kv = dict(x.split("=") for x in w[2:])
+            if int(kv.get("avg", "0")) > 1:
+                return False, "averaging on (filter data path not in the model yet)"
+            s = int(w[1])
+            if kv.get("cam") not in ("AB"[s], "none") or kv.get("sto") not in ("AB"[s], "none"):
+                return False, "device choice outside G1"
+        if w and w[0] == "unmap" and len(w) > 2 and w[2] == "bytes":
+            return False, "monitor consumes a byte count that is not a frame boundary"
+    return True, ""
+
+
+def to_events(prog, lines):
+    """Translate the harness log into the event alphabet of the Coq model.  Returns (events, index map to log lines)."""
+    tids = list(getattr(lines, "tids", [])) or [0] * len(lines)
+    cams = meta_from_prog(prog)["cams"]
+    ev = []
+    src = []
+    roles = {}           # thread id -> (stream, actor)
+    pending = []         # roles of the threads acquire_start is about to create
+    cfg = {}
+    valid = []
+    prog_pos = 0
+    tags = {0: 0, 1: 0}  # camera index -> number of successful starts so far
+    since_mon_rmap = {0: False, 1: False}
+
+    def frames(text, s):
+        out = []
+        for f in parse_frames(text):
+            cam = cams[s]
+            tag = 0
+            for t in range(tags[s], 0, -1):
+                if px_hash_c(s, t, f["hw"], f["w"], f["h"], f["t"]) == f["px"]:
+                    tag = t
+                    break
+            out.append("%d:%d:%d:%d" % (tag, f["id"], f["hw"], shape_code(f["w"], f["h"], f["t"], f["sz"])))
+        return out
+
+    def emit(e, i):
+        ev.append(e)
+        src.append(i)
+
+    def actor(tid, s):
+        r = roles.get(tid)
+        if r is None:
+            return "cli"
+        return r[1]
+
+    for i, l in enumerate(lines):
+        w = l.split()
+        tid = tids[i]
+        if not w:
+            continue
+        if w[0] == "A":
+            if w[1] == "configure":
+                while prog_pos < len(prog) and not prog[prog_pos].startswith("configure"):
+                    pl = prog[prog_pos]
+                    if pl.startswith("cfg "):
+                        s = int(pl.split()[1])
+                        kvs = dict(x.split("=") for x in pl.split()[2:])
+                        cfg[s] = dict(cam=kvs.get("cam"), sto=kvs.get("sto"), n=int(kvs.get("n", 0)))
+                    prog_pos += 1
+                prog_pos += 1
+                ok = "-> ok" in l
+                v = [ok and s in cfg and cfg[s]["cam"] not in (None, "none", "Bad") and cfg[s]["sto"] not in (None, "none", "Bad") for s in (0, 1)]
+                valid = [s for s in (0, 1) if v[s]]
+                emit("G configure %d %d %d %d" % (v[0], v[1], cfg.get(0, {}).get("n", 0), cfg.get(1, {}).get("n", 0)), i)
+            elif w[1] == "start" and w[2] == "call":
+                pending = [(s, r) for s in valid for r in ("sink", "filt", "src")]
+                emit("G startcall", i)
+            elif w[1] == "start":
+                emit("G startret %s" % ("ok" if w[3] == "ok" else "err"), i)
+            elif w[1] in ("stop", "abort", "shutdown"):
+                emit("G %s%s" % (w[1], "call" if w[2] == "call" else "ret"), i)
+            elif w[1] == "state":
+                emit("G state %s" % {"AwaitingConfiguration": "await", "Armed": "armed", "Running": "running"}.get(w[3], "await"), i)
+            continue
+        if w[0] == "T":
+            t = int(w[1])
+            if w[2] == "create":
+                new = int(w[3])
+                if t == 0 and pending:
+                    s, r = pending.pop(0)
+                    roles[new] = (s, r)
+                    emit("S %d cli spawn %s" % (s, r), i)
+                # other creations: the harness' monitor thread (acts as the client)
+            elif w[2] == "exit":
+                if t in roles:
+                    s, r = roles[t]
+                    emit("S %d %s exit %s" % (s, r, r), i)
+            elif w[2] == "joined":
+                tgt = int(w[3])
+                if tgt in roles:
+                    s, r = roles[tgt]
+                    emit("S %d %s joined %s" % (s, actor(t, s), r), i)
+            continue
+        if w[0] == "D":
+            if w[1] == "driver" or w[1].startswith("dev"):
+                continue
+            kind, idx, inst = w[1][:3], int(w[1][3]), int(w[1].split("#")[1])
+            s = idx
+            a = actor(tid, s)
+            op = w[2]
+            if op in ("open", "close", "set"):
+                emit("S %d %s %s%s %d" % (s, a, op, kind, inst), i)
+            elif op == "reserve":
+                pass
+            elif op == "start":
+                ok = "ok" in w[3:4]
+                if kind == "cam":
+                    if ok:
+                        tags[s] += 1
+                    emit("S %d %s camstart %d %s %d" % (s, a, inst, "ok" if ok else "fail", tags[s] if ok else 0), i)
+                else:
+                    emit("S %d %s stostart %d %s" % (s, a, inst, "ok" if ok else "fail"), i)
+            elif op == "stop":
+                emit("S %d %s %sstop %d" % (s, a, kind, inst), i)
+            elif op == "trigger":
+                emit("S %d %s trigger %d" % (s, a, inst), i)
+            elif op == "get_frame":
+                if w[3] == "ok":
+                    hw = int(w[4].split("=")[1])
+                    tag = int(w[5].split("=")[1])
+                    c = cams[s]
+                    emit("S %d %s getframe %d ok %d %d %d" % (s, a, inst, hw, tag, shape_code(c["w"], c["h"], c["t"], frame_size(c["w"], c["h"], c["t"]))), i)
+                else:
+                    emit("S %d %s getframe %d fail" % (s, a, inst), i)
+            elif op == "append":
+                if "FAIL" in l:
+                    emit("S %d %s append %d fail x" % (s, a, inst), i)   # frames of a failing append are not logged: filled in below
+                else:
+                    emit("S %d %s append %d ok %s" % (s, a, inst, " ".join(frames(l, s))), i)
+            continue
+        if w[0] in ("W", "R", "C"):
+            s = int(w[1][1])
+            a = actor(tid, s)
+            if w[0] == "C":
+                if w[2] == "commit":
+                    if w[3] != "sink.in":
+                        continue
+                    f = dict(x.split("=") for x in w[5:])
+                    c = cams[s]
+                    # the committed frame's identity: tag of the camera's current run
+                    emit("S %d %s commit %s %d:%s:%s:%d" % (s, a, "ok" if w[4] == "ok" else "drop", tags[s], f["id"], f["hw"],
+                                                           shape_code(c["w"], c["h"], int(f["t"]), int(f["sz"]))), i)
+                elif w[2] == "abort_write":
+                    pass
+                elif w[2] in ("sig_stop_filter", "sig_stop_sink", "sig_stop_source"):
+                    emit("S %d %s cb%s" % (s, a, w[2][4:].replace("_", "")), i)
+                continue
+            if w[2] != "sink.in":
+                continue
+            if w[0] == "W":
+                if w[3] == "wmap-enter":
+                    emit("S %d %s wmapenter" % (s, a), i)
+                elif w[3] == "wmap":
+                    emit("S %d %s wmap %s" % (s, a, w[4]), i)
+                elif w[3] == "accept":
+                    emit("S %d %s accept %s" % (s, a, w[4]), i)
+            else:
+                r = w[3]
+                if r not in ("sink", "mon"):
+                    continue
+                if w[4] == "rmap-enter":
+                    emit("S %d %s rmapenter %s" % (s, a, r), i)
+                elif w[4] == "rmap":
+                    if r == "mon":
+                        since_mon_rmap[s] = True
+                    emit("S %d %s rmap %s %s" % (s, a, r, " ".join(frames(l, s))), i)
+                elif w[4] == "runmap":
+                    kv = dict(x.split("=") for x in w[5:])
+                    c = int(kv["of"]) if kv["all"] == "1" else int(kv["frames"])
+                    if r == "mon" and kv["all"] == "1" and kv["mapped"] == "0":
+                        c = 0
+                    emit("S %d %s runmap %s %d" % (s, a, r, c), i)
+            continue
+        if w[0] == "M":
+            s = int(w[1][1])
+            if w[3] == "map":
+                if w[4] == "ok":
+                    emit("S %d cli monret ok" % s, i)
+                elif since_mon_rmap[s]:
+                    emit("S %d cli monret err" % s, i)
+                else:
+                    emit("S %d cli monrefused" % s, i)
+                since_mon_rmap[s] = False
+            continue
+    # a failing append does not list its frames: it was handed what the sink had mapped -- recover it from the preceding rmap
+    last_rmap = {}
+    for k, e in enumerate(ev):
+        w = e.split()
+        if w[0] == "S" and w[3] == "rmap" and w[4] == "sink" and w[2] == "sink":
+            last_rmap[w[1]] = w[5:]
+        if w[0] == "S" and w[3] == "append" and w[5] == "fail":
+            ev[k] = " ".join(w[:6] + last_rmap.get(w[1], []))
+    return ev, src
+
+
+def model_run(orac, traces):
+    """traces: list of (id, [event lines]).  Returns {id: (accepted(bool), index, text, state line)}"""
+    inp = []
+    for tid, evs in traces:
+        inp.extend(evs)
+        inp.append("end %s" % tid)
+    rc, o, e = vlib.sh([orac], inp="\n".join(inp) + "\n", timeout=600)
+    res = {}
+    for l in o.split("\n"):
+        w = l.split(" ", 2)
+        if len(w) < 2:
+            continue
+        if w[1] == "ACCEPT":
+            res[w[0]] = [True, int(w[2]), "", ""]
+        elif w[1] == "REJECT":
+            k, _, txt = w[2].partition(" ")
+            res[w[0]] = [False, int(k), txt, ""]
+        elif w[1] == "STATE" and w[0] in res:
+            res[w[0]][3] = w[2] if len(w) > 2 else ""
+    return res
